@@ -2,16 +2,21 @@
 The extracted verified checker `is_min_pm` (Decoders/Matching.v, c13_checker) is applied to what the real
 graphtools.mwpm / mwpm_networkx return on generated graphs; SimpleGraph contents are compared with the
 model of add_edge after every insertion sequence; the property is also evaluated directly with an
-independent subset-DP in Python."""
+independent subset-DP in Python.  Besides random graphs: structured families over small weight alphabets, and operation
+histories on ONE SimpleGraph object (harness/c13_extra.py; model Decoders/MatchingHist.v, engine command `hist`): every
+matcher call is judged on the content of the object at the time of the call."""
 import itertools
 import json
 from fractions import Fraction
 
 from harness.common import coq_list, Ctx
+from harness import c13_extra as extra
 
 WEIGHT_KINDS = ('small-int', 'dyadic', 'negative', 'zero', 'ties', 'tiny-float', 'wide-range', 'huge-float')
 NODE_KINDS = ('int', 'tuple2', 'tuple3', 'txy-bool', 'identity', 'identity-dup', 'mixed-tuples')
 DENSITIES = (1.0, 0.7, 0.4)
+DP_MAX = 16
+HIST_WEIGHT_KINDS = ('small-int', 'dyadic', 'negative', 'zero', 'ties')
 
 
 class _Node:
@@ -68,6 +73,21 @@ def graph_job(job):
 
 def graph_jobs(jobs):
     return [graph_job(j) for j in jobs]
+
+
+def history_job(job):
+    """worker: one history on one SimpleGraph object (generated and executed together, see c13_extra.gen_history)"""
+    import random
+    import qecsim.graphtools as gt
+    rng = random.Random(job['seed'])
+    objs = [build_node(sp) for sp in make_nodes(rng, job['npool'], job['nodes'])]
+    h = extra.gen_history(gt, objs, rng.getrandbits(48), make_weight, HIST_WEIGHT_KINDS, job['nmax'], direct_eval)
+    h['meta'] = {'kind': 'hist', 'seed': job['seed'], 'nodes': job['nodes'], 'npool': job['npool'], 'nmax': job['nmax']}
+    return h
+
+
+def history_jobs(jobs):
+    return [history_job(j) for j in jobs]
 
 
 def execute_graph(gt, ops_nodes, steps):
@@ -174,10 +194,13 @@ def direct_eval(items, matching):
     nodes = sorted(set(x for k in w for x in k))
     pos = {x: i for i, x in enumerate(nodes)}
     wi = {(pos[a], pos[b]): x for (a, b), x in w.items()}
-    mn = brute_min(nodes, wi)
-    if mn is None:
+    large = len(nodes) > DP_MAX      # the subset DP is not run: only coverage and edge use are evaluated here
+    mn = None if large else brute_min(nodes, wi)
+    if mn is None and not large:
         return 'no-pm', None
     used = [x for p in matching for x in p]
+    if large and sorted(used) != nodes:
+        return 'large-not-covering', None      # no perfect matching, or an imperfect result: the checker decides
     if sorted(used) != nodes:
         return 'not-perfect', 'matching %r does not cover every node exactly once' % (matching,)
     tot = 0
@@ -186,6 +209,8 @@ def direct_eval(items, matching):
         if k not in w:
             return 'not-perfect', 'pair %r is not an edge of the graph' % ((a, b),)
         tot += w[k]
+    if large:
+        return 'large-perfect', None
     if tot != mn:
         return 'not-minimum', 'weight %s but the minimum over perfect matchings is %s' % (Fraction(tot, scale), Fraction(mn, scale))
     return 'ok', None
@@ -202,9 +227,16 @@ def run(ctx):
                 'all_pms = []), edge probability 1/0.7/0.4, five weight kinds (small ints, dyadic floats, negatives, '
                 'all-zero, heavy ties), seven node kinds (ints, 2-/3-tuples, ((t,x,y),bool), identity-hashed objects '
                 'with equal payloads), random insertion order/orientation with reversed and same-orientation '
-                're-insertion; decoder-shaped graphs recorded from real MWPM/CMWPM/SMWPM decodes; all graphs on 4 '
+                're-insertion; structured families (even cycles, paths, ladders, grids, K_nn, pruned K_nn, trees / '
+                'caterpillars with a perfect matching, pruned decoder-like graphs, prisms, chorded cycles, cubes, '
+                'two-component unions) with up to %d nodes over small weight alphabets (e.g. {-2..2}, {-1,0,1}, '
+                '{-1.0,-0.5,0.0,0.5,1.0}, mixed int/float, optionally shifted by a constant); operation histories on ONE '
+                'SimpleGraph object (add_edge, g[k]=w, del, pop, popitem, update, |=, setdefault, clear, copies, '
+                'interleaved with mwpm / mwpm_networkx calls on the object or on a dict copy; the caller damages returned '
+                'sets; all results read again at the end) judged on the content of the object at each call; '
+                'decoder-shaped graphs recorded from real MWPM/CMWPM/SMWPM decodes; all graphs on 4 '
                 'labelled nodes with weights in a small set exhaustively. nontrivial = >= 6 nodes with >= 2 perfect '
-                'matchings of different weight' % nmax)
+                'matchings of different weight' % (nmax, ctx.pick(18, 24)))
     ctx.props_obligations()
     if blossom5.available():
         ctx.notes.append('Blossom V library unexpectedly available: graphtools.mwpm used it')
@@ -263,8 +295,18 @@ def run(ctx):
         pmeta.append({'kind': 'gen', 'n': n, 'nodes': nk, 'weights': wk, 'density': dens, 'reins': reins,
                       'steps': it % 10 == 0})
 
+    # ---- 1b. structured families (cycles, paths, ladders, grids, K_nn, trees and caterpillars with a perfect matching,
+    # pruned decoder-like graphs, prisms, cubes, unions) over small weight alphabets: many zeros, ties, negatives --------
+    smax = ctx.pick(18, 24)
+    for it in range(ctx.pick(5000, 30000)):
+        fam, an, n, ops = extra.structured_graph(rng, smax if it % 3 == 0 else 12, dense_max=nmax)
+        nk = rng.choice(NODE_KINDS)
+        pjobs.append({'nodes': make_nodes(rng, n, nk), 'ops': [(a, b, w, False) for a, b, w in ops], 'steps': it % 25 == 0})
+        pmeta.append({'kind': 'struct', 'n': n, 'nodes': nk, 'weights': an, 'density': fam, 'reins': 0,
+                      'steps': it % 25 == 0})
+
     # ---- 2. all graphs on 4 labelled nodes, weights from a small set (exhaustive) ------------
-    wset = ctx.pick([None, 0, 1], [None, -1, 0, 1, 2.5])
+    wset = ctx.pick([None, -1, 0, 1], [None, -1, 0, 1, 2.5])
     pairs4 = list(itertools.combinations(range(4), 2))
     for ws in itertools.product(wset, repeat=6):
         ops = [(a, b, w, False) if (a + b + len(ws)) % 2 else (b, a, w, False) for (a, b), w in zip(pairs4, ws) if w is not None]
@@ -276,6 +318,14 @@ def run(ctx):
         for c, m_ in zip(chunk_res, chunk_meta):
             c['meta'] = m_
             cases.append(c)
+
+    # ---- 2b. histories on ONE SimpleGraph object: every dict method between matcher calls, results kept and read again
+    # at the end, returned sets damaged by the caller, copies, clear-and-refill at another size -------------------------
+    hjobs = []
+    for it in range(ctx.pick(1500, 12000)):
+        hn = rng.choice([4, 6, 6, 8, 8, 10])
+        hjobs.append({'seed': rng.getrandbits(48), 'nodes': rng.choice(NODE_KINDS), 'npool': hn + 2, 'nmax': hn})
+    hists = [h for chunk in zoo.run_pool(history_jobs, list(zoo.chunks(hjobs, 50))) for h in chunk]
 
     # ---- 3. decoder-shaped graphs recorded from real decodes ----------------------------------
     recorded = []
@@ -361,7 +411,18 @@ def run(ctx):
                 c['i_chk'].append(len(req))
                 req.append('check %s %s' % (gline(c['items']), mline(r)))
             else:
-                c['i_chk'].append(None)
+                c['i_chk'].append(len(req))
+                req.append('npms ' + gline(c['items']))
+    # histories: the content after every operation (model of the dict methods) and one checker call per matcher call
+    for h in hists:
+        h['i_hist'] = len(req)
+        req.append('hist ' + (';'.join(h['hops']) or '-'))
+        for ev in h['events']:
+            ev['i_chk'] = len(req)
+            if isinstance(ev['res'], list):
+                req.append('check %s %s' % (gline(ev['items']), mline(ev['res'])))
+            else:
+                req.append('npms ' + gline(ev['items']))
     out = zoo.model_parallel(ctx, 'c13', req)
 
     def canon_graph(s):
@@ -372,6 +433,66 @@ def run(ctx):
             a, b, w = e.split(':')
             r.append(((int(a), int(b)), parse_q(w)))
         return r
+
+    def judge(kind, meta, items, r, ic, ev, rep, fname, key, sample_ok):
+        """one matcher call: r = what it returned on the graph `items`, out[ic] = the verified checker's verdict (or the
+        number of perfect matchings when the call raised), ev = the independent evaluation. Returns the checker fields"""
+        st, detail = ev
+        large = st.startswith('large')
+        if not isinstance(r, list):
+            # an exception or a non-set: the model decides whether the graph is in the property's domain
+            npm = int(out[ic])
+            ctx.count(None, False, kind + '/raised')
+            if not large and (npm == 0) != (st == 'no-pm') and st != 'reversed-duplicate':
+                ctx.cmp('all_pms = [] vs independent DP', req[ic][:400], st, 'no-pm' if npm == 0 else 'has-pm')
+            if npm > 0:
+                ctx.violation('raised', '%s raised / returned a non-set on a graph with a perfect matching: %s'
+                              % (fname, r), dict(rep, function=fname))
+            return None
+        f = dict(t.split('=') for t in out[ic].split(' '))
+        npm = int(f['npm'])
+        if npm == 0:
+            ctx.count(key, False, kind + '/no-perfect-matching(skipped)')
+            if st not in ('no-pm', 'reversed-duplicate', 'large-not-covering'):
+                ctx.cmp('all_pms = [] vs independent DP', req[ic][:400], st, 'no-pm')
+            return None
+        meta = dict(meta, n=len(set(x for k, _ in items for x in k)))
+        nontriv = meta['n'] >= 6 and npm >= 2 and f['distinctw'] == '1'
+        if kind == 'struct':
+            label = 'struct/%s' % meta['density']
+            ctx.hist['struct-alphabet/%s' % meta['weights']] += 1
+        elif kind == 'hist':
+            label = 'hist/%s' % fname
+        else:
+            label = '%s/%s/%s/d=%s' % (kind, meta['weights'], meta['nodes'], meta['density'])
+        ctx.count(key, nontriv, label,
+                  {'n': meta['n'], 'nodes': meta['nodes'], 'weights': meta['weights'], 'graph': gline(items)[:160],
+                   'returned': mline(r), 'perfect_matchings': npm, 'min_weight': str(parse_q(f['minw']))}
+                  if (meta['n'] == 6 and nontriv and sample_ok) else None)
+        ctx.hist['n=%d' % meta['n']] += 1
+        repv = dict(rep, function=fname, returned=[list(p) for p in r], checker=out[ic])
+        if f['perfect'] != '1':
+            ctx.violation('not-perfect', '%s: returned matching is not a perfect matching of the graph '
+                          '(verified checker is_perfect = false)' % fname, repv)
+        elif f['min'] != '1' and float(parse_q(f['w'])) == float(parse_q(f['minw'])) and parse_q(f['w']) != parse_q(f['minw']):
+            # float weights whose exact totals differ by less than a rounding error: equal as doubles
+            ctx.count(None, False, kind + '/equal-as-floats')
+        elif f['min'] != '1':
+            ctx.violation('not-minimum', '%s: returned perfect matching has weight %s but %s has the smaller '
+                          'weight %s (verified checker is_min_pm = false)'
+                          % (fname, parse_q(f['w']), f['counter'], parse_q(f['minw'])), repv)
+        # independent evaluation must agree with the verified checker
+        if large:
+            ctx.count(None, False, kind + '/larger-than-DP(checker only)')
+            if (st == 'large-perfect') != (f['perfect'] == '1'):
+                ctx.cmp('is_perfect vs independent evaluation', req[ic][:400], st, 'perfect=' + f['perfect'])
+            return f
+        want = 'ok' if f['min'] == '1' else ('not-perfect' if f['perfect'] != '1' else 'not-minimum')
+        if st != want and st != 'reversed-duplicate':
+            ctx.cmp('is_min_pm vs independent DP', req[ic][:400], st, want)
+        if st not in ('ok', 'reversed-duplicate') and f['min'] == '1':
+            ctx.violation(st, '%s: %s (independent evaluation)' % (fname, detail), repv)
+        return f
 
     kern = []
     for c in cases:
@@ -402,49 +523,44 @@ def run(ctx):
             ctx.violation('last-weight', 'SimpleGraph edge does not carry the weight of its last insertion', rep)
         for which, (r, ic) in enumerate(zip(c['res'], c['i_chk'])):
             fname = ('mwpm', 'mwpm_networkx')[which]
-            if not isinstance(r, list):
-                # an exception or a non-set: decide via the model whether the graph is in the property's domain
-                st, _ = c['eval'][which]
-                ctx.count(None, False, kind + '/raised')
-                if st != 'no-pm':
-                    ctx.violation('raised', '%s raised / returned a non-set on a graph with a perfect matching: %s'
-                                  % (fname, r), dict(rep, function=fname))
-                continue
-            f = dict(t.split('=') for t in out[ic].split(' '))
-            npm = int(f['npm'])
-            st, detail = c['eval'][which]
-            key = (tuple(c['ops'][:40]), which)
-            if npm == 0:
-                ctx.count(key, False, kind + '/no-perfect-matching(skipped)')
-                if st not in ('no-pm', 'reversed-duplicate'):
-                    ctx.cmp('all_pms = [] vs independent DP', req[ic][:400], st, 'no-pm')
-                continue
-            meta = dict(meta, n=len(set(x for k, _ in c['items'] for x in k)))
-            nontriv = meta['n'] >= 6 and npm >= 2 and f['distinctw'] == '1'
-            ctx.count(key, nontriv, '%s/%s/%s/d=%s' % (kind, meta['weights'], meta['nodes'], meta['density']),
-                      {'n': meta['n'], 'nodes': meta['nodes'], 'weights': meta['weights'], 'graph': gline(c['items'])[:160],
-                       'returned': mline(r), 'perfect_matchings': npm, 'min_weight': str(parse_q(f['minw']))}
-                      if (meta['n'] == 6 and nontriv and which == 0) else None)
-            ctx.hist['n=%d' % meta['n']] += 1
-            repv = dict(rep, function=fname, returned=[list(p) for p in r], checker=out[ic])
-            if f['perfect'] != '1':
-                ctx.violation('not-perfect', '%s: returned matching is not a perfect matching of the graph '
-                              '(verified checker is_perfect = false)' % fname, repv)
-            elif f['min'] != '1' and float(parse_q(f['w'])) == float(parse_q(f['minw'])) and parse_q(f['w']) != parse_q(f['minw']):
-                # float weights whose exact totals differ by less than a rounding error: equal as doubles
-                ctx.count(None, False, kind + '/equal-as-floats')
-            elif f['min'] != '1':
-                ctx.violation('not-minimum', '%s: returned perfect matching has weight %s but %s has the smaller '
-                              'weight %s (verified checker is_min_pm = false)'
-                              % (fname, parse_q(f['w']), f['counter'], parse_q(f['minw'])), repv)
-            # independent evaluation must agree with the verified checker
-            want = 'ok' if f['min'] == '1' else ('not-perfect' if f['perfect'] != '1' else 'not-minimum')
-            if st != want and st != 'reversed-duplicate':
-                ctx.cmp('is_min_pm vs independent DP', req[ic][:400], st, want)
-            if st not in ('ok', 'reversed-duplicate') and f['min'] == '1':
-                ctx.violation(st, '%s: %s (independent evaluation)' % (fname, detail), repv)
-            if which == 0 and kind == 'gen' and meta['n'] <= 6 and len(kern) < 40 and f['min'] == '1' and not dup:
+            f = judge(kind, meta, c['items'], r, ic, c['eval'][which], rep, fname, (tuple(c['ops'][:40]), which),
+                      sample_ok=which == 0)
+            if f and which == 0 and kind == 'gen' and len(set(x for k, _ in c['items'] for x in k)) <= 6 \
+                    and len(kern) < 40 and f['min'] == '1' and not dup:
                 kern.append((c['ops'], c['items'], r))
+
+    # ---- histories on one object ----------------------------------------------------------------
+    nev = 0
+    hkern = []
+    for h in hists:
+        meta = h['meta']
+        rep0 = {'history': h['ops'], 'meta': meta}
+        model_states = [canon_graph(x) for x in out[h['i_hist']].split('|')] if h['hops'] else []
+        impl_states = [[((a, b), Fraction(w)) for (a, b), w in st_] for st_ in h['states']]
+        ctx.cmp('SimpleGraph history (dict methods)', req[h['i_hist']][:800], impl_states, model_states)
+        ctx.count(None, False, 'history')
+        for ei, ev in enumerate(h['events']):
+            nev += 1
+            rep = dict(rep0, call_index=ev['at'], function=ev['fn'], target=ev['target'],
+                       graph=[[a, b, frac(w)] for (a, b), w in ev['items']])
+            ks = [(min(a, b), max(a, b)) for (a, b), _ in ev['items']]
+            if len(set(ks)) != len(ks) or any(a == b for a, b in ks):
+                ctx.count(None, False, 'hist/reversed-duplicate-or-loop(skipped)')
+                continue
+            hm = dict(meta, kind='hist', weights='hist', density='hist')
+            f = judge('hist', hm, ev['items'], ev['res'], ev['i_chk'], ev['eval'], rep, ev['fn'],
+                      (meta['seed'], ei), sample_ok=False)
+            if f and f['min'] == '1' and ei >= 1 and len(hkern) < 12 and len(h['ops']) <= 40 and ev['target'] == 'self' \
+                    and not any(hk[0] is h for hk in hkern):
+                hkern.append((h, ev))
+            if not ev['items'] and ev['res'] != []:
+                ctx.violation('empty', 'empty graph (after clear / pops) does not yield the empty matching', rep)
+            if ev['res_end'] is not None and ev['res_end'] != ev['res']:
+                ctx.violation('result-changed', '%s: the returned set read %r when it was returned and reads %r at the end of '
+                              'the history (later operations changed a result already handed out)'
+                              % (ev['fn'], ev['res'], ev['res_end']), rep)
+    ctx.extra['histories'] = len(hists)
+    ctx.extra['history_matcher_calls'] = nev
     ctx.extra['graphs'] = len(cases)
     ctx.extra['recorded_decoder_graphs'] = nrec
     ctx.exhaustive = False
@@ -454,21 +570,45 @@ def run(ctx):
     def q(w):
         f = Fraction(w)
         return '(Qmake (%d)%%Z %d%%positive)' % (f.numerator, f.denominator)
+    def qs(s_):
+        a, b = s_.split('/')
+        return '(Qmake (%s)%%Z %s%%positive)' % (a, b)
+
+    def coq_hop(op):
+        c = op[0]
+        if c == 'A':
+            return 'HAdd %d %d %s' % (op[1], op[2], qs(op[3]))
+        if c in 'SF':
+            return '%s (%d, %d) %s' % ({'S': 'HSet', 'F': 'HSetdefault'}[c], op[1], op[2], qs(op[3]))
+        if c == 'D':
+            return 'HDel (%d, %d)' % (op[1], op[2])
+        if c == 'U':
+            return 'HUpdate %s' % coq_list(['((%d, %d), %s)' % (a, b, qs(w)) for a, b, w in op[1]])
+        return {'P': 'HPopitem', 'C': 'HClear'}.get(c)
+    hitems = []
+    for h, ev in hkern:
+        # the content of the object at the call = run (the dict operations logged before it), and the checker on it
+        # (a history continued on a copy carries the content over, so the logged operations still describe it)
+        hops = [coq_hop(op) for op in h['ops'][:ev['at']]]
+        cg = coq_list(['((%d, %d), %s)' % (a, b, q(w)) for (a, b), w in ev['items']])
+        hitems.append('(geqb (run %s) %s && is_min_pm %s %s)'
+                      % (coq_list([x for x in hops if x]), cg, cg, coq_list(['(%d, %d)' % p_ for p_ in ev['res']])))
     items = []
     for ops, its, m in kern:
         cops = coq_list(['(%d, %d, %s)' % (a, b, q(w)) for a, b, w in ops])
         cg = coq_list(['((%d, %d), %s)' % (a, b, q(w)) for (a, b), w in its])
         cm = coq_list(['(%d, %d)' % p for p in m])
         items.append('(geqb (build %s) %s && is_min_pm %s %s)' % (cops, cg, cg, cm))
-    text = ('From Coq Require Import List Bool Arith QArith.\nFrom QV Require Import Decoders.Matching.\n'
+    text = ('From Coq Require Import List Bool Arith QArith.\nFrom QV Require Import Decoders.Matching Decoders.MatchingHist.\n'
             'Import ListNotations.\nOpen Scope nat_scope.\n'
             'Definition qeqb (a b : Q) := Z.eqb (Qnum a) (Qnum b) && Pos.eqb (Qden a) (Qden b).\n'
             'Fixpoint geqb (g h : graph) : bool := match g, h with [], [] => true | (k, w) :: g\', (k\', w\') :: h\' => '
             'keyb k k\' && qeqb w w\' && geqb g\' h\' | _, _ => false end.\n'
-            'Definition checks : list bool :=\n [' + ';\n  '.join(items) + '].\n'
+            'Definition checks : list bool :=\n [' + ';\n  '.join(items + hitems) + '].\n'
             'Example corr : forallb (fun b => b) checks = true.\nProof. vm_compute. reflexivity. Qed.\n')
     ctx.kernel_cases('sample', text)
     ctx.extra['kernel_cases'] = len(items)
+    ctx.extra['kernel_history_cases'] = len(hitems)
 
 
 def replay(path):
@@ -478,6 +618,8 @@ def replay(path):
     d = json.load(open(path))
     print(json.dumps(d, indent=1)[:3000])
     r = d.get('replay', {})
+    if 'history' in r:
+        return replay_hist(r)
     if 'ops' not in r:
         return 0
     g = gt.SimpleGraph()
@@ -497,3 +639,29 @@ def replay(path):
             bad = 1
     print('REPRODUCED' if bad else 'not reproduced')
     return bad
+
+
+def replay_hist(r):
+    """re-execute a logged history on one SimpleGraph (integer node labels) and apply the verified checker to every
+    matcher call, on the content the object had at that call"""
+    import qecsim.graphtools as gt
+    h = extra.replay_history(gt, r['history'], direct_eval)
+    ctx = Ctx('C13', 'quick', 0)
+    bad = 0
+    for ev in h['events']:
+        gl = ';'.join('%d:%d:%s' % (a, b, frac(w)) for (a, b), w in ev['items']) or '-'
+        if isinstance(ev['res'], list):
+            o = ctx.model('c13', ['check %s %s' % (gl, ';'.join('%d:%d' % p for p in ev['res']) or '-')])[0]
+            f = dict(t.split('=') for t in o.split(' '))
+            fail = f['npm'] != '0' and f['min'] != '1'
+        else:
+            o = ctx.model('c13', ['npms ' + gl])[0]
+            fail = o != '0'
+        if ev['res_end'] is not None and ev['res_end'] != ev['res']:
+            fail = True
+            o += ' result-changed-to=%r' % (ev['res_end'],)
+        print('op %d %s(%s) graph=%s -> %s : %s%s' % (ev['at'], ev['fn'], ev['target'], gl, ev['res'], o,
+                                                     '   <== FAILS' if fail else ''))
+        bad = bad or fail
+    print('REPRODUCED' if bad else 'not reproduced')
+    return 1 if bad else 0
